@@ -7,8 +7,10 @@ package trzsz
 
 import (
 	"bytes"
+	"encoding/base64"
 	"fmt"
 	"io"
+	"os"
 	"sync"
 	"time"
 )
@@ -426,4 +428,68 @@ func (a *VerifArchive) VerifArchiveCompress(protocol int, compress int, binary b
 		}
 	}()
 	return comp, bytes.Contains(out.Bytes(), []byte("#COMP:")), errText, r.getSize(), verifArchiveReader{r}
+}
+
+// ---- errors of the destination surface through the archive writer ----
+
+// VerifArchiveRecvV2 runs the real recvFileDataV2 (the receiving pipeline of one file) with the
+// archive writer that createDirOrFile opens for rootSource under dest; prepare (if not nil) runs
+// after the writer exists (the root directory has been created) and before the first byte arrives.
+// stream is what the sender's archive reader produced; it is queued as base64 DATA lines plus the
+// finish line.  Reports the error text ("" = accepted), whether nothing was decided before the
+// deadline, and the local name of the root.
+func VerifArchiveRecvV2(dest, rootSource string, prepare func(rootDir string), stream []byte, timeoutSec int, deadline time.Duration) (errText string, hung bool, localName string) {
+	srcFile, err := unmarshalSourceFile(rootSource)
+	if err != nil {
+		return "unmarshal: " + err.Error(), false, ""
+	}
+	t := verifArchiveTransfer()
+	t.writer = io.Discard
+	t.transferConfig.Timeout = timeoutSec
+	t.transferConfig.CompressType = kCompressNo
+	w, name, err := t.createDirOrFile(dest, srcFile, true)
+	if err != nil {
+		return "create: " + err.Error(), false, ""
+	}
+	if w == nil {
+		return "create: no writer", false, name
+	}
+	if prepare != nil {
+		prepare(dest + string(os.PathSeparator) + name)
+	}
+	enc := base64.StdEncoding.EncodeToString(stream)
+	for len(enc) > 0 {
+		m := 8192
+		if m > len(enc) {
+			m = len(enc)
+		}
+		t.addReceivedData([]byte("#DATA:"+enc[:m]+"\n"), false)
+		enc = enc[m:]
+	}
+	t.addReceivedData([]byte("#DATA:\n"), false)
+	done := make(chan error, 1)
+	go func() {
+		defer func() {
+			if r := recover(); r != nil {
+				done <- fmt.Errorf("panic: %v", r)
+			}
+		}()
+		_, err := t.recvFileDataV2(w, int64(len(stream)), nil)
+		done <- err
+	}()
+	select {
+	case err := <-done:
+		w.Close()
+		if err != nil {
+			return err.Error(), false, name
+		}
+		return "", false, name
+	case <-time.After(deadline):
+		t.stopTransferringFiles(false)
+		select {
+		case <-done:
+		case <-time.After(2 * time.Second):
+		}
+		return "", true, name
+	}
 }
